@@ -960,8 +960,8 @@ func ForeignAlternatives(c *HintCall) []Alternative {
 	n := len(h)
 	one := big.NewInt(1)
 	// bits?
-	if n >= 2 && len(c.Inputs) >= 1 {
-		x := c.Inputs[len(c.Inputs)-1]
+	for xi := len(c.Inputs) - 1; xi >= 0 && n >= 2; xi-- {
+		x := c.Inputs[xi]
 		isBits := true
 		sum := new(big.Int)
 		for i := n - 1; i >= 0; i-- {
@@ -998,6 +998,13 @@ func ForeignAlternatives(c *HintCall) []Alternative {
 				}
 				alts = append(alts, Alternative{Family: "bits/of-input-plus-r", Out: b})
 			}
+			// (a') two top digits shifted against each other (+1 and -2): the sum and every low digit stay as they are
+			if n >= 3 {
+				t := cp()
+				t[n-1] = new(big.Int).Mod(new(big.Int).Add(t[n-1], one), R)
+				t[n-2] = new(big.Int).Mod(new(big.Int).Sub(t[n-2], big.NewInt(2)), R)
+				alts = append(alts, Alternative{Family: "bits/two-top-digits-shifted", Out: t})
+			}
 			// (c) everything in digit 0
 			if sum.Cmp(one) > 0 {
 				z := make([]*big.Int, n)
@@ -1011,8 +1018,8 @@ func ForeignAlternatives(c *HintCall) []Alternative {
 		}
 	}
 	// split?
-	if n == 2 && len(c.Inputs) >= 1 {
-		x := new(big.Int).Mod(c.Inputs[len(c.Inputs)-1], R)
+	for xi := len(c.Inputs) - 1; xi >= 0 && n == 2; xi-- {
+		x := new(big.Int).Mod(c.Inputs[xi], R)
 		for k := uint(1); k <= 128; k++ {
 			for ord := 0; ord < 2; ord++ {
 				lo, hi := h[ord], h[1-ord]
